@@ -383,6 +383,61 @@ func runC13Curve(c *h.Ctx, cv curveT) {
 			c13VerifyASN1(c, name+":asn1:crafted-x-overflow", cv, pub, digest, derSig(derIntContent(r), derIntContent(s)))
 		}
 	}
+	// --- crafted: public keys at the edges of the coordinate range — x = 0 (the points (0, +-sqrt(b)) exist on P-256,
+	// P-384, P-521), the smallest x > 0 on the curve, x = p - 1 ... — with signatures built without the private key
+	// (R = u1 G + u2 Q, r = R.x mod N, s = r / u2, e = u1 s): valid under standard ECDSA
+	{
+		p := curve.Params()
+		three := big.NewInt(3)
+		var xs []*big.Int
+		for i := int64(0); i < 40; i++ {
+			xs = append(xs, big.NewInt(i), new(big.Int).Sub(p.P, big.NewInt(1+i)))
+		}
+		found := 0
+		for _, x := range xs {
+			y2 := new(big.Int).Exp(x, three, p.P)
+			y2.Sub(y2, new(big.Int).Mul(three, x))
+			y2.Add(y2, p.B)
+			y2.Mod(y2, p.P)
+			y := new(big.Int).ModSqrt(y2, p.P)
+			if y == nil || !curve.IsOnCurve(x, y) {
+				continue
+			}
+			found++
+			if found > 6 {
+				break
+			}
+			for _, yy := range []*big.Int{y, new(big.Int).Sub(p.P, y)} {
+				pub := &ecdsa.PublicKey{Curve: curve, X: new(big.Int).Set(x), Y: new(big.Int).Set(yy)}
+				nb := (p.N.BitLen() + 7) / 8
+				u1 := new(big.Int).Mod(new(big.Int).SetBytes(rnd(c, nb)), p.N)
+				u2 := new(big.Int).Mod(new(big.Int).SetBytes(rnd(c, nb)), p.N)
+				if u1.Sign() == 0 || u2.Sign() == 0 {
+					continue
+				}
+				gx, gy := curve.ScalarBaseMult(u1.Bytes())
+				qx, qy := curve.ScalarMult(pub.X, pub.Y, u2.Bytes())
+				rx, _ := curve.Add(gx, gy, qx, qy)
+				r := new(big.Int).Mod(rx, p.N)
+				if r.Sign() == 0 {
+					continue
+				}
+				sv := new(big.Int).Mul(r, new(big.Int).ModInverse(u2, p.N))
+				sv.Mod(sv, p.N)
+				e := new(big.Int).Mul(u1, sv)
+				e.Mod(e, p.N)
+				if sv.Sign() == 0 {
+					continue
+				}
+				digest := digestFor(curve, e)
+				if !stdecdsa.Verify(&stdecdsa.PublicKey{Curve: curve, X: pub.X, Y: pub.Y}, digest, r, sv) {
+					c.Notes["craft_edge_key_"+name] = "construction not accepted by crypto/ecdsa (harness bug?)"
+				}
+				c13Verify(c, name+":rs:crafted-edge-public-key", cv, pub, digest, r, sv)
+				c13VerifyASN1(c, name+":asn1:crafted-edge-public-key", cv, pub, digest, derSig(derIntContent(r), derIntContent(sv)))
+			}
+		}
+	}
 	// --- entropy failures: every failure position and several chunkings --------------------------------------------
 	sk, _ := ecdsa.GenerateKey(curve, crand.Reader)
 	bk, _ := ecdsa.GenerateKey(curve, crand.Reader)
